@@ -2,6 +2,7 @@ import NessaiVerif.Model.Quadrature
 import NessaiVerif.Proofs.Quadrature
 import NessaiVerif.Proofs.InformationReal
 import NessaiVerif.Proofs.QuadBracket
+import NessaiVerif.Gen.Increment
 import Mathlib.Analysis.SpecialFunctions.Log.Basic
 /-
 C02 — evidence and posterior weights equal the documented nested-sampling quadrature.
@@ -600,5 +601,37 @@ theorem info_state_Z_eq_quadrature_Z [DecidableEq K] (lg : K → K) (shrink : Na
 example := info_state_Z_eq_quadrature_Z (K := ℚ) (fun x => x) tOfN 2 [(1, none), (2, some 1)]
 
 end information
+
+/-! ## The source of `_NSIntegralState.increment`, regenerated on every run, IS the model
+
+`Gen/Increment.lean` is produced by `harness/pylog2lean.py` from the current text of `_NSIntegralState.increment`
+(log space ↦ linear domain, statement by statement, `lg`/`ex` uninterpreted).  The two theorems below say that the generated
+definition, projected onto the fields each hand-written model keeps, is that model's step — for every field, every
+`lg`/`ex`, both expectations, every state, likelihood and optional live count.  All C02 theorems about `St.increment`
+(evidence = rectangle rule, volumes, weights) and `ISt.step` (information = textbook `H`) are thereby theorems about the
+source as it is now; an edit of `increment` that changes its meaning makes one of these two proofs fail. -/
+section source
+open NessaiVerif.Incr NessaiVerif.Info
+variable {K : Type} [Field K] [DecidableEq K]
+
+theorem increment_source_eq_quadrature_model (lg ex : K → K) (isLogt : Bool) (s : NSt K) (L : K) (nl : Option Nat) :
+    (Gen.Increment.increment lg ex isLogt s L nl).toSt = s.toSt.increment (shrinkOf ex isLogt) L nl := by
+  simp only [Gen.Increment.increment, NSt.toSt, St.increment, shrinkOf]
+  cases isLogt <;> simp [sub_eq_add_neg]
+
+theorem increment_source_eq_information_model (lg ex : K → K) (isLogt : Bool) (s : NSt K) (L : K) (nl : Option Nat) :
+    (Gen.Increment.increment lg ex isLogt s L nl).toISt =
+      s.toISt.step lg L (shrinkOf ex isLogt (nl.getD s.base)) := by
+  simp only [Gen.Increment.increment, NSt.toISt, ISt.step, shrinkOf]
+  cases isLogt <;> simp [sub_eq_add_neg]
+
+/-- applied (non-vacuity): two increments of a fresh state with expectation "t", through the GENERATED definition,
+give the evidence `L₁ (1 - t) + t L₂ (1 - t)` with `t = 2/3` (nlive = 2), at `K = ℚ` -/
+example :
+    ((Gen.Increment.increment (fun x => x) (fun x => x) false
+        (Gen.Increment.increment (fun x => x) (fun x => x) false (NSt.init 2 : NSt ℚ) 1 none) 3 none).Z) = 1 := by
+  norm_num [Gen.Increment.increment, NSt.init]
+
+end source
 
 end NessaiVerif.C02
